@@ -106,7 +106,23 @@ func c13Gen(rt *rapid.T) c13Case {
 		st := c13Step{IdleMs: rapid.SampledFrom([]int{0, 0, 0, 20, 60, 110, 150}).Draw(rt, "idle")}
 		names := db.TableNames()
 		if len(names) > 0 && rapid.IntRange(0, 4).Draw(rt, "sel") == 0 {
-			st.Select = "SELECT * FROM " + names[rapid.IntRange(0, len(names)-1).Draw(rt, "seltbl")]
+			tn := names[rapid.IntRange(0, len(names)-1).Draw(rt, "seltbl")]
+			st.Select = "SELECT * FROM " + tn
+			if k := rapid.IntRange(0, 3).Draw(rt, "seljoins"); k >= 2 {
+				// a chain of joins: the statement fetches one table after the other, all
+				// inside one bracket (self-joins under aliases: the key types match)
+				col := db.Tables[tn].Cols[0].Name
+				st.Select = fmt.Sprintf("SELECT * FROM %s x JOIN %s y ON x.%s = y.%s", tn, tn, col, col)
+				if k == 3 {
+					t3 := names[rapid.IntRange(0, len(names)-1).Draw(rt, "seltbl3")]
+					c3 := db.Tables[t3].Cols[0]
+					if c3.Type == db.Tables[tn].Cols[0].Type {
+						st.Select += fmt.Sprintf(" JOIN %s z ON y.%s = z.%s", t3, col, c3.Name)
+					} else {
+						st.Select += fmt.Sprintf(" JOIN %s z ON y.%s = z.%s", tn, col, col)
+					}
+				}
+			}
 		} else {
 			s, ok := gen.NextStmt(rt, cfg, db)
 			if !ok {
